@@ -433,6 +433,54 @@ def import_by_path(ctx, tmp):
         del sys.modules[k]
 
 
+def trees_that_change(ctx, tmp):
+    """the name of a path is a function of the tree as it IS: a package marker added to or removed from any ancestor directory
+    between two questions (a checkout, a generated `__init__.py`) is seen by the next question, through every entry point"""
+    from xdoctest import static_analysis
+    from xdoctest.utils import util_import
+    root = os.path.join(tmp, 'changing')
+    leaf = os.path.join(root, 'a', 'b', 'c', 'm.py')
+    os.makedirs(os.path.dirname(leaf))
+    open(leaf, 'w').write('X = 1\n')
+    inits = {d: os.path.join(root, *d.split('/'), '__init__.py') for d in ('a', 'a/b', 'a/b/c')}
+
+    def expected():
+        parts = ['m']
+        for d in ('a/b/c', 'a/b', 'a'):
+            if not os.path.exists(inits[d]):
+                break
+            parts.insert(0, d.split('/')[-1])
+        return '.'.join(parts)
+
+    def set_inits(present):
+        for d, p in inits.items():
+            if d in present and not os.path.exists(p):
+                open(p, 'w').write('')
+            elif d not in present and os.path.exists(p):
+                os.remove(p)
+    states = [('a', 'a/b', 'a/b/c'), ('a/b', 'a/b/c'), ('a', 'a/b', 'a/b/c'), ('a', 'a/b/c'), ('a/b/c',), ('a', 'a/b', 'a/b/c'), (), ('a/b', 'a/b/c'), ('a', 'a/b', 'a/b/c')]
+    for fn_name, fn in (('static_analysis.modpath_to_modname', static_analysis.modpath_to_modname), ('util_import.modpath_to_modname', util_import.modpath_to_modname)):
+        for i, present in enumerate(states):
+            set_inits(present)
+            ctx.evaluations += 1
+            exp = expected()
+            try:
+                got = fn(leaf)
+            except Exception as e:      # noqa
+                got = 'raised:' + type(e).__name__
+            try:
+                rel = util_import.split_modpath(leaf)[1]
+                via_split = os.path.splitext(rel)[0].replace(os.sep, '.')
+            except Exception as e:      # noqa
+                via_split = 'raised:' + type(e).__name__
+            if got != exp or via_split != exp:
+                ctx.violation('import-resolution', {'what': '%s(a/b/c/m.py) = %r (split_modpath gives %r) with package markers in %r; the tree says %r - after the earlier questions about the same path with markers in %r' % (
+                    fn_name, got, via_split, sorted(present), exp, [sorted(p) for p in states[:i]]), 'history_of_marker_sets': [sorted(p) for p in states[:i + 1]],
+                    'scenario': 'tree-changes-between-questions', 'theorem_or_correspondence': 'C17 round trip on a tree that changes between two questions'}, True)
+                return
+    ctx.count('changing_tree_questions', 2 * len(states))
+
+
 def names_that_are_files(ctx, tmp):
     """a module NAME handed to the collection entry points is resolved like the interpreter resolves it, also when the working
     directory happens to hold a file spelled like the name (an extensionless launcher script next to src/<name>/, a file
@@ -537,6 +585,7 @@ def run(ctx):
         ext_modules(ctx, tmp)
         symlink_trees(ctx, tmp)
         names_that_are_files(ctx, tmp)
+        trees_that_change(ctx, tmp)
         real_extension_modules(ctx)
     finally:
         shutil.rmtree(tmp, ignore_errors=True)
